@@ -1193,6 +1193,13 @@ impl DumpBytes for &str {
             ));
         }
 
+        // The register holds a NUL terminated string, so an interior NUL can't be stored.
+        if self.contains('\0') {
+            return Err(ControlError::InvalidData(
+                "string must not contain NUL character".into(),
+            ));
+        }
+
         let data_len = self.len();
         if data_len > buf.len() {
             return Err(ControlError::InvalidData("too large string".into()));
